@@ -18,7 +18,7 @@ def main():
     props = sys.argv[2:] or [f"C{i:02d}" for i in range(1, 21)]
     scratch = tempfile.mkdtemp(prefix="wsref.", dir="/var/tmp")
     try:
-        shutil.copytree("/repo/websocket", os.path.join(scratch, "websocket"), ignore=shutil.ignore_patterns("__pycache__"))
+        shutil.copytree(os.environ.get("WSVERIF_BASE", "/repo") + "/websocket", os.path.join(scratch, "websocket"), ignore=shutil.ignore_patterns("__pycache__"))
         r = subprocess.run(["patch", "-p1", "--no-backup-if-mismatch", "-i", os.path.abspath(os.path.join(d, "patch.diff"))], cwd=scratch, capture_output=True, text=True)
         if r.returncode:
             print(d, "PATCH FAILED", r.stdout[-300:])
